@@ -4,10 +4,12 @@ from unicodedata import category
 
 
 whitespace = {' ', '\t', '\n', '\x0b', '\x0c', '\r'}
-unicode_whitespace = {'\t', '\n', '\x0b', '\x0c', '\r', '\x1c', '\x1d', '\x1e',
-        '\x1f', ' ', '\x85', '\xa0', '\u1680', '\u2000', '\u2001', '\u2002',
+# tab, line feed, form feed, carriage return and the Unicode category Zs
+# (not everything for which str.isspace() holds: U+001C..U+001F, U+0085, U+2028, U+2029 are no whitespace here)
+unicode_whitespace = {'\t', '\n', '\x0c', '\r',
+        ' ', '\xa0', '\u1680', '\u2000', '\u2001', '\u2002',
         '\u2003', '\u2004', '\u2005', '\u2006', '\u2007', '\u2008', '\u2009',
-        '\u200a', '\u2028', '\u2029', '\u202f', '\u205f', '\u3000'}
+        '\u200a', '\u202f', '\u205f', '\u3000'}
 
 # punctuation: _ASCII and Unicode punctuation characters_ as defined at
 # <https://spec.commonmark.org/0.30/#ascii-punctuation-character> and
